@@ -96,11 +96,18 @@ def classify_output(ctx, name, rc, out, trace_path):
         except OSError:
             pass
     if "WARNING: DATA RACE" in out:
-        blocks = out.split("WARNING: DATA RACE")[1:]
-        mine = [b for b in blocks if re.search(r"zoekt/(search|index)/(?!zz_verif)[a-z_]+\.go", b.split("==================")[0])]
+        blocks = [b.split("==================")[0] for b in out.split("WARNING: DATA RACE")[1:]]
+        mine = []
+        for b in blocks:
+            # per access (paragraph): the first frame that is neither the runtime nor the driver
+            for para in re.split(r"\n\s*\n", b)[:2]:
+                files = re.findall(r"^\s+(/\S+\.go):\d+", para, re.M)
+                files = [f for f in files if "/src/" not in f and "/pkg/mod/" not in f]
+                if files and "zz_verif" not in files[0] and files[0].startswith(vk.REPO + "/"):
+                    mine.append((files[0][len(vk.REPO) + 1:], b))
+                    break
         if mine:
-            m = re.search(r"zoekt/((?:search|index)/(?!zz_verif)[a-z_]+\.go):\d+", mine[0])
-            ctx.violation("C19:race", {"run": name, "file": m.group(1) if m else "?", "report": mine[0][:3000], "reports": len(mine)})
+            ctx.violation("C19:race", {"run": name, "file": mine[0][0], "report": mine[0][1][:3000], "reports": len(mine)})
         elif rc != 0:
             raise vk.Inconclusive("race report inside the driver only (%s):\n%s" % (name, blocks[0][:2000]))
     if rc != 0 and "WARNING: DATA RACE" not in out:
